@@ -1084,6 +1084,7 @@ func init() {
 			{Name: "e2e", N: n(24, 120), Run: runE2E},
 			{Name: "e2e-files", N: n(16, 80), Run: runE2EFiles},
 			{Name: "e2e-dir", N: n(12, 30), Run: runE2EDir},
+			{Name: "e2e-tty", N: n(8, 16), Run: runE2ETty},
 		},
 		Cmds:          []string{"obiconvert", "obigrep", "obiannotate"},
 		MinNontrivial: 500,
